@@ -93,6 +93,8 @@ def run_check(pid: str, tier: str) -> int:
         for name, minimum in (need or {}).items():
             if merged["counters"].get(name, 0) < minimum:
                 inconclusive.append(f"deciding counter {name}={merged['counters'].get(name, 0)} < {minimum}")
+        if hasattr(prop, "inconclusive"):
+            inconclusive.extend(prop.inconclusive(merged))
         if len(merged["nontrivial"]) < 2:
             inconclusive.append("fewer than 2 distinct non-trivial cases")
         if unlisted:
@@ -145,20 +147,41 @@ def run_check(pid: str, tier: str) -> int:
 
 
 def run_replay(pid: str, path: str) -> int:
-    prop = load_prop(pid)
+    """Re-executes exactly one recorded case, alone, in a fresh process under RLIMIT_CPU (so that a
+    recorded hang is reproduced as a hang and not as a stuck replay)."""
+    load_prop(pid)
     env.check_repo_import()
     with open(path) as f:
         doc = json.load(f)
     case = doc.get("case", doc)
-    ctx = runner.Ctx(pid, "quick", env.seed(), replay_mode=True)
-    ctx.current_case = case
-    prop.replay(case, ctx)
+    workdir = tempfile.mkdtemp(prefix=f"vf_{pid}_replay_", dir=env.scratch_root())
+    try:
+        budget = float(os.environ.get("VERIF_CASE_CPU", runner.CASE_CPU_BUDGET["thorough"]))
+        verdict, res = runner.confirm_hang(pid, "quick", env.seed(), case, workdir, budget)
+    finally:
+        shutil.rmtree(workdir, ignore_errors=True)
     known = findings.load()
+    violations = {}
+    if verdict == "hang":
+        key = "hang:" + (res or {}).get("where", "unknown")
+        violations[key] = f"case did not terminate within {int(budget * 3)} CPU-seconds"
+    elif verdict == "crash":
+        violations["crash"] = f"process died: {res}"
+    elif verdict == "ok":
+        if res.get("harness_error"):
+            print(f"INCONCLUSIVE property={pid} harness error during replay: {res['harness_error'].strip().splitlines()[-1]}")
+            return 2
+        for key, v in res.get("violations", {}).items():
+            violations[key] = v["examples"][0]["message"]
+    else:
+        print(f"INCONCLUSIVE property={pid} replay watchdog fired")
+        return 2
     rc = 0
-    for key, v in ctx.violations.items():
-        tag = "KNOWN-FINDING:" if (pid, key) in known else "REPRODUCED"
-        print(f"{tag} property={pid} key={key}: {v['examples'][0]['message']}")
-        if (pid, key) not in known:
+    for key, msg in violations.items():
+        if (pid, key) in known:
+            print(f"KNOWN-FINDING: property={pid} key={key} {known[(pid, key)]}")
+        else:
+            print(f"[{pid}] reproduced key={key}: {msg}")
             rc = 1
     if rc:
         print(f"VIOLATION property={pid} replay={path}")
